@@ -19,6 +19,8 @@ pub mod diagn {
     }
     #[verifier::external_body]
     pub struct Message { _p: u8 }
+    /// the message is of kind Error (defined over the real field in U-report)
+    pub uninterp spec fn msg_is_error(m: Message) -> bool;
     impl Clone for Message {
         #[verifier::external_body]
         fn clone(&self) -> (r: Message) ensures r == *self { unimplemented!() }
